@@ -443,6 +443,26 @@ pub fn es_t() -> Family {
     Family::list(out)
 }
 
+/// ES-U: every byte value, then an EDIFACT-favouring run of 4m characters (m = 1..=14), then a short
+/// tail that EDIFACT cannot carry. The EDIFACT end-of-data rule (one or two codewords left: ASCII
+/// without unlatch) makes planner and encoder agree on the exact codeword count at the end, so any
+/// byte whose cost the planner books differently from what the encoder writes shows up here.
+pub fn es_u() -> Family {
+    let mut out = Vec::new();
+    let tails: [&[u8]; 4] = [b"a", b"ab", &[0x80], b"a1"];
+    for b in 0..=255u8 {
+        for m in 1..=14usize {
+            for t in tails {
+                let mut v = vec![b];
+                v.extend(b".A,B".iter().cycle().take(4 * m));
+                v.extend_from_slice(t);
+                out.push(v);
+            }
+        }
+    }
+    Family::list(out)
+}
+
 /// ES-J2: a long Base256 / C40 run at a length-field boundary, an EDIFACT-favouring middle part
 /// of every length 0..=40 and a short suffix of another class.
 pub fn es_j2() -> Family {
